@@ -499,6 +499,16 @@ void big_operand_ops(Enumerator &E) {
                 size_t ts = b.target(o);
                 E.cell(nm("format", "fmt" + std::to_string(fi) + ",var" + std::to_string(var) + ",big", "a1=" + std::to_string(a1)), b, ts);
             }
+    // the deprecated to_buffer(char_buffer&, bool, utf_validation_t) spelling
+    for (unsigned which = 6; which < 8; which++)
+        for (unsigned mode = 0; mode < 3; mode++)
+            for (uint32_t sz : {5u, 40u})
+                for (uint32_t dz : {0u, 5u, 40u}) {
+                    Builder b; uint32_t st = b.str(sz); uint32_t d = b.buf(0, dz);
+                    Op o; o.kind = S_TO_BUFFER_INTO; o.a = st; o.b = d; o.c = which | (mode << 4);
+                    size_t ts = b.target(o);
+                    E.cell(nm("to_buffer_into", "which" + std::to_string(which) + ",mode" + std::to_string(mode), "obj=" + std::to_string(sz) + ",dst=" + std::to_string(dz)), b, ts);
+                }
     // one-string operations on big receivers
     struct K { uint16_t kind; const char *name; unsigned nvar; };
     const K ks[] = {{S_SUBSTR, "substr", 8}, {S_TRIM, "trim", 3}, {S_CASE, "case", 2}, {S_TOKENIZE, "tokenize", 1}, {S_TO_BUF, "to_buf", 6},
